@@ -133,7 +133,7 @@ pub fn run(ctx: &mut Ctx) {
     if ctx.shard == 0 {
         ctx.exhaustive_parts.push("on every swept position: all 20,480 strings [a-h][1-8][a-h][1-8][nbrq]? for both readers, plus 0000 through six entry points".into());
     }
-    let n = ctx.budget(30_000, 1_500_000);
+    let n = ctx.budget(400_000, 5_000_000);
     let mut src = Sources::standard(n);
     src.three_man = n / 20;
     stream::run(ctx, &src, &mut check_pos);
